@@ -12,6 +12,10 @@ vmon.mon.sched, yield point = every line of the named modules):
 
     purge mido from sys.modules; import it afresh; thread i runs jobs[i] (a list of operations)
 
+("fresh": false in the job keeps one import for all schedules and warms every operation up first:
+the same driver then explores overlapping calls in the steady state - a scratch buffer shared
+between calls, a result object handed out twice.)
+
 and every operation's result is compared with the expected value supplied by the caller (computed
 there by the reference codec, never by mido).
 
@@ -25,6 +29,8 @@ Operations (JSON objects):
                                                        re-assigned and the message encoded)
     {"fn": "str", "type": t, "attrs": {...}, "want": "..."}
     {"fn": "parse_all", "arg": [...], "want": [{...}, ...]}
+    {"fn": "save", "fmt": 1, "division": 96, "tracks": [[event, ...], ...], "want": "hex of the file"}
+    {"fn": "load", "data": "hex", "want": [type, ticks_per_beat, [[message, ...], ...]]}
     {"fn": "meta_bytes", "type": t, "attrs": {...}, "want": [..]}
     {"fn": "meta_from_bytes", "arg": [...], "want": {...}}
 A result that is an exception is reported as {"raised": "ClassName: text"}.
@@ -52,6 +58,22 @@ def purge():
         del sys.modules[k]
 
 
+def msg_of_event(mido, ev):
+    """A message of the freshly imported mido from a reference event (vmon.ref.smf form)."""
+    from .ref import meta as rmeta
+    from .ref import midi1
+    kind, d = ev[0], ev[1]
+    if kind in ('ch', 'sys'):
+        t, a = midi1.decode([ev[2]] + list(ev[3]))
+        return mido.Message(t, time=d, **a)
+    if kind == 'sysex':
+        return mido.Message('sysex', data=tuple(ev[2]), time=d)
+    t, a = rmeta.decode_payload(ev[2], ev[3], 'latin1')
+    if t == 'unknown_meta':
+        return mido.UnknownMetaMessage(ev[2], tuple(ev[3]), time=d)
+    return mido.MetaMessage(t, time=d, **a)
+
+
 def do(mido, op):
     fn = op['fn']
     try:
@@ -66,6 +88,18 @@ def do(mido, op):
             return norm(mido.Message(op['type'], **a).bytes())
         if fn == 'from_str':
             return norm(mido.Message.from_str(op['arg']))
+        if fn == 'save':
+            import io
+            mid = mido.MidiFile(type=op['fmt'], ticks_per_beat=op['division'])
+            for evs in op['tracks']:
+                mid.tracks.append(mido.MidiTrack(msg_of_event(mido, e) for e in evs))
+            buf = io.BytesIO()
+            mid.save(file=buf)
+            return buf.getvalue().hex()
+        if fn == 'load':
+            import io
+            mid = mido.MidiFile(file=io.BytesIO(bytes.fromhex(op['data'])))
+            return [mid.type, mid.ticks_per_beat, [norm(list(t)) for t in mid.tracks]]
         if fn in ('ctor', 'from_dict', 'copy'):
             a = {k: tuple(v) if isinstance(v, list) else v for k, v in op['attrs'].items()}
             if fn == 'ctor':
@@ -173,13 +207,23 @@ def main():
     report = {'schedules': 0, 'steps': 0, 'traces': set(), 'mismatches': [], 'aborted': [], 'switch_sites': set(),
               'ops': 0}
 
+    fresh = job.get('fresh', True)
+    warm = {}
+
     def run_once(points):
-        sched.uninstall()
-        purge()
         import importlib
-        mido = importlib.import_module('mido')
-        mods = [importlib.import_module(m) for m in modules]
-        codes = lines.code_objects(mods)
+        if fresh or not warm:
+            sched.uninstall()
+            purge()
+            mido = importlib.import_module('mido')
+            mods = [importlib.import_module(m) for m in modules]
+            warm['mido'], warm['codes'] = mido, lines.code_objects(mods)
+            if not fresh:
+                # warm mode: one import, every operation done once before the schedules start
+                for j in jobs:
+                    for op in j:
+                        do(mido, op)
+        mido, codes = warm['mido'], warm['codes']
         strat = sched.Preempt(points)
         s = sched.Scheduler(codes, strat, max_steps=20000, candidate_files=suffixes)
         results = [[None] * len(j) for j in jobs]
